@@ -318,7 +318,7 @@ PSR_OPS = ['msr_reg', 'msr_reg', 'msr_reg', 'msr_imm', 'msr_spsr', 'cps', 'cps',
 def gen_psr_walk(rng):
     sec = rng.random() < 0.7
     virt = sec and rng.random() < 0.35
-    cfg = {'arch_version': 7, 'have_security_ext': sec, 'have_virt_ext': virt, 'have_lpae': False,
+    cfg = {'arch_version': 7, 'have_security_ext': sec, 'have_virt_ext': virt, 'have_lpae': rng.random() < 0.3,      # (LPAE: a capability flag; translation stays off here)
            'memory_system_architecture': 'VMSA' if virt else 'PMSA', 'number_of_mpu_regions': 12}
     thumb = rng.getrandbits(1)
     modes = G.legal_modes(cfg)
